@@ -35,8 +35,11 @@ Steps ==
 
 Allowed(s) ==
   /\ Len(script) < MaxAtt
-  /\ s.d # 0 => s.beh \in {"close_orderly", "close_abrupt"}
+  /\ s.d # 0 => s.beh \in {"close_orderly", "close_abrupt", "drop_unserved"}
   /\ s.beh \in {"close_orderly", "close_abrupt"} => s.d \in CloseDs /\ Count({"close_orderly", "close_abrupt"}) < MaxClose
+  \* a connection lost while a stream request is in flight: there is such a request, and it has time to be sent
+  /\ s.beh = "drop_unserved" => /\ s.d \in CloseDs \ {0} /\ (pending # {} \/ s.open)
+                                 /\ Count({"drop_unserved"}) < MaxMute
   \* a connection that has to serve someone is not closed at once
   /\ (s.beh \in {"close_orderly", "close_abrupt"} /\ s.d = 0) => (~s.open /\ pending = {})
   /\ s.beh = "mute" => (pending # {} \/ s.open) /\ Count({"mute"}) < MaxMute
